@@ -330,17 +330,17 @@ Definition parse_read_tag (dec : rdecoder) (raw : bytes) : gresp :=
     end
   else {| g_r := r; g_value := None |}.
 
-(* ReadTagFragmentedResponsePacket: the constructor subscripts self.data outside any try *)
+(* ReadTagFragmentedResponsePacket._parse_reply: a reply without service data (self.data is None:
+   the error is already recorded) keeps no value bytes *)
 Record fresp := { f_r : resp; f_value_bytes : bytes; f_data_type : bytes; f_value : option value }.
-Definition none_not_subscriptable : text := T "'NoneType' object is not subscriptable".
-Definition parse_read_frag (raw : bytes) : rm fresp :=
+Definition parse_read_frag (raw : bytes) : fresp :=
   let r := parse_unit raw in
   match r_data r with
-  | None => RErr (Foreign TypeError) none_not_subscriptable
+  | None => {| f_r := r; f_value_bytes := []; f_data_type := []; f_value := None |}
   | Some data =>
       if is_struct_reply data
-      then ROk {| f_r := r; f_value_bytes := skipn 4 data; f_data_type := firstn 4 data; f_value := None |}
-      else ROk {| f_r := r; f_value_bytes := skipn 2 data; f_data_type := firstn 2 data; f_value := None |}
+      then {| f_r := r; f_value_bytes := skipn 4 data; f_data_type := firstn 4 data; f_value := None |}
+      else {| f_r := r; f_value_bytes := skipn 2 data; f_data_type := firstn 2 data; f_value := None |}
   end.
 (* ReadTagFragmentedResponsePacket.parse_value after value_bytes was replaced by the joined bytes *)
 Definition frag_parse_value (dec : rdecoder) (f : fresp) (joined : bytes) : fresp :=
@@ -379,22 +379,16 @@ Fixpoint reply_slices (data : bytes) (offs : list Z) : list bytes :=
               | o' :: _ => slice (Z.to_nat o) (Z.to_nat o') data :: reply_slices data r
               end
   end.
-(* the part of MultiServiceResponsePacket._parse_reply that is outside any try/except *)
-Definition split_multi (data : option bytes) : rm (list bytes) :=
-  match data with
-  | None => match decode_elem_none UINT_t with RErr e m => RErr e m | ROk _ => ROk [] end
-  | Some data =>
-      match decode_elem UINT_t data with
+(* the try block of MultiServiceResponsePacket._parse_reply: the service-reply byte ranges, or
+   what it raised (recorded as the error text).  next(end, None): an empty offset table gives no
+   service replies. *)
+Definition split_multi (data : bytes) : rm (list bytes) :=
+  match decode_elem UINT_t data with
+  | RErr e m => RErr e m
+  | ROk num_replies =>
+      match decode_offsets (slice 2 (2 + 2 * Z.to_nat num_replies) data) with
       | RErr e m => RErr e m
-      | ROk num_replies =>
-          let offset_data := slice 2 (2 + 2 * Z.to_nat num_replies) data in
-          match offset_data with
-          | [] => RErr (Foreign StopIteration) []          (* next(end) on an empty generator *)
-          | _ => match decode_offsets offset_data with
-                 | RErr e m => RErr e m
-                 | ROk offs => ROk (reply_slices data offs)
-                 end
-          end
+      | ROk offs => ROk (reply_slices data offs)
       end
   end.
 
@@ -409,12 +403,20 @@ Fixpoint zip_sub (ds : list bytes) (qs : list sreq) : list sresp :=
   | d :: ds', q :: qs' => sub_response q d :: zip_sub ds' qs'
   | _, _ => []
   end.
-Definition parse_multi (reqs : list sreq) (raw : bytes) : rm (resp * list sresp) :=
+(* MultiServiceResponsePacket._parse_reply: nothing is split when the reply could not be parsed,
+   is an encapsulation error, or carries no data (`not self.data`) *)
+Definition parse_multi (reqs : list sreq) (raw : bytes) : resp * list sresp :=
   let r := parse_unit raw in
-  match split_multi (r_data r) with
-  | RErr e m => RErr e m
-  | ROk ds => ROk (r, zip_sub ds reqs)
-  end.
+  if is_some (r_error r) || negb (opt_is (r_command_status r) SUCCESS) then (r, [])
+  else match r_data r with
+       | None => (r, [])
+       | Some [] => (r, [])
+       | Some data =>
+           match split_multi data with
+           | ROk ds => (r, zip_sub ds reqs)
+           | RErr _ m => (set_error r (fail_prefix ++ m), [])
+           end
+       end.
 
 (* ---------------------------------------------------------------- Tags and the public calls *)
 Record tag := { t_value : option value; t_error : option text }.
@@ -449,20 +451,17 @@ Fixpoint read_frag_loop (dec : rdecoder) (replies : list bytes) (acc : list fres
   match replies with
   | [] => RErr CommError receive_failed
   | raw :: rest =>
-      match parse_read_frag raw with
-      | RErr e m => RErr e m
-      | ROk f =>
-          let acc' := acc ++ [f] in
-          if opt_is (r_service_status (f_r f)) INSUFFICIENT_PACKETS then read_frag_loop dec rest acc'
-          else match error KUnit (f_r f) with
-               | RErr e m => RErr e m
-               | ROk _ =>
-                   if forallb (fun x => is_valid KUnit (f_r x)) acc' then
-                     let fin := frag_parse_value dec f (concat (map f_value_bytes acc')) in
-                     ROk (f_r fin, f_value fin)
-                   else ROk (failed_fragments, None)
-               end
-      end
+      let f := parse_read_frag raw in
+      let acc' := acc ++ [f] in
+      if opt_is (r_service_status (f_r f)) INSUFFICIENT_PACKETS then read_frag_loop dec rest acc'
+      else match error KUnit (f_r f) with
+           | RErr e m => RErr e m
+           | ROk _ =>
+               if forallb (fun x => is_valid KUnit (f_r x)) acc' then
+                 let fin := frag_parse_value dec f (concat (map f_value_bytes acc')) in
+                 ROk (f_r fin, f_value fin)
+               else ROk (failed_fragments, None)
+           end
   end.
 Definition read_fragmented (dec : rdecoder) (replies : list bytes) : rm tag :=
   match read_frag_loop dec replies [] with
@@ -524,14 +523,28 @@ Fixpoint collect_results (i : nat) (qs : list sreq) (ts : list tag) : list tag :
                 | [] => {| t_value := None; t_error := Some (invalid_tag_request i) |} :: collect_results (S i) qs' []
                 end
   end.
+(* _send_requests, multi branch, the requests the reply carries no service reply for:
+   Tag(req.tag, None, None, req.error or response.error or "No reply received for request") *)
+Definition no_reply_received : text := T "No reply received for request".
+Definition rest_error (r : resp) : rm text :=
+  match error KUnit r with
+  | RErr e m => RErr e m
+  | ROk (Some ((_ :: _) as t)) => ROk t
+  | ROk _ => ROk no_reply_received
+  end.
 (* read/write of >= 2 requests that all fit into one multi-service packet *)
 Definition rw_multi (reqs : list sreq) (raw : bytes) : rm (list tag) :=
-  match parse_multi reqs raw with
+  let '(r, subs) := parse_multi reqs raw in
+  match multi_tags subs with
   | RErr e m => RErr e m
-  | ROk (_, subs) =>
-      match multi_tags subs with
-      | RErr e m => RErr e m
-      | ROk ts => ROk (collect_results O reqs ts)
+  | ROk ts =>
+      match skipn (length subs) reqs with
+      | [] => ROk (collect_results O reqs ts)
+      | missing =>
+          match rest_error r with
+          | RErr e m => RErr e m
+          | ROk e => ROk (collect_results O reqs (ts ++ map (fun _ => {| t_value := None; t_error := Some e |}) missing))
+          end
       end
   end.
 
@@ -632,7 +645,9 @@ Inductive call :=
   | CRead (dec : rdecoder)                     (* LogixDriver.read of one tag, plain Read Tag *)
   | CReadFrag (dec : rdecoder)                 (* ... Read Tag Fragmented (one reply per fragment) *)
   | CWrite (v : value)                         (* LogixDriver.write of one tag / one bit (read-modify-write) *)
-  | CWriteFrag (v : value) (n : nat)           (* ... Write Tag Fragmented in n segments *)
+  | CWriteFrag (v : value) (n : nat)           (* ... Write Tag Fragmented in n + 1 segments: the segment count is fixed by
+                                                  the request (value length / segment size), never by a reply, and a request
+                                                  that is fragmented has a value *)
   | CMulti (reqs : list sreq)                  (* read/write of >= 2 tags in one multi-service packet *)
   | CGeneric (k : rkind) (dt : option decoder) (* CIPDriver.generic_message connected (KUnit) / unconnected (KRR) *)
   | COpen                                      (* CIPDriver.open: register session *)
@@ -655,7 +670,7 @@ Fixpoint run_call (c : call) (replies : list bytes) : rm out :=
   | CRead dec => one_reply replies (read_single dec)
   | CReadFrag dec => tag_out (read_fragmented dec replies)
   | CWrite v => one_reply replies (write_single v)
-  | CWriteFrag v n => tag_out (write_fragmented v n replies)
+  | CWriteFrag v n => tag_out (write_fragmented v (S n) replies)
   | CMulti reqs => match replies with
                    | [] => RErr CommError receive_failed
                    | raw :: _ => tags_out (rw_multi reqs raw)
